@@ -193,6 +193,24 @@ def run_case(case):
         res = check_graph(aug, nodes, tsm, Counter(), only_nodes=new_nodes, only_edges=new_edges)
         for Ve, _ in res:
             V += Ve
+        # un-batched input (single episode, 1-D arrays) must give the un-batched version of the same result
+        try:
+            part1 = jax.tree_util.tree_map(lambda x: x[0], part)
+            aug1 = npz(augment_graphs(part1, nodes, rng=jax.random.PRNGKey(case["spec_seed"] + 5)))
+            augb = npz(augment_graphs(jax.tree_util.tree_map(lambda x: x[:1], part), nodes, rng=jax.random.PRNGKey(case["spec_seed"] + 5)))
+            counters["unbatched_augments_checked"] += 1
+            for n_, v_ in augb.vertices.items():
+                for f in ("seq", "ts_start", "ts_end"):
+                    a1 = onp.asarray(getattr(aug1.vertices[n_], f))
+                    if a1.ndim != 1 or not onp.array_equal(a1, onp.asarray(getattr(v_, f))[0]):
+                        V.append(dict(clause="unbatched_augment_differs_from_batched", node=n_, field=f, ndim=int(a1.ndim)))
+            for k_, e_ in augb.edges.items():
+                for f in ("seq_out", "seq_in", "ts_recv"):
+                    a1 = onp.asarray(getattr(aug1.edges[k_], f))
+                    if a1.ndim != 1 or not onp.array_equal(a1, onp.asarray(getattr(e_, f))[0]):
+                        V.append(dict(clause="unbatched_augment_differs_from_batched", conn=k_, field=f, ndim=int(a1.ndim)))
+        except NotImplementedError:
+            pass
         key = f"{dg}/augment/{victim}"
         if V:
             items.append(dict(status="violated", key=key, nontrivial=True, witness=dict(mechanism=V[0]["clause"], violations=V[:4], spec=spec, removed=victim)))
